@@ -142,13 +142,25 @@ func (r *Run) Finish(verifDir string, cmd string) int {
 	}
 	sort.SliceStable(bad, func(i, j int) bool { return bad[i].Pos < bad[j].Pos })
 	seenBad := map[string]bool{}
+	perRule := map[string]int{}
 	for _, v := range bad {
-		line := fmt.Sprintf("%s: rule %s %s: %s  [key: %s]", v.Pos, v.Rule, v.Status, v.Msg, v.Key)
-		if seenBad[line] {
+		msg := v.Msg
+		if i := strings.Index(msg, "; path: "); i >= 0 {
+			msg = msg[:i]
+		}
+		dk := v.Pos + "|" + v.Rule + "|" + msg
+		if seenBad[dk] {
 			continue
 		}
-		seenBad[line] = true
-		fmt.Println(line)
+		seenBad[dk] = true
+		perRule[v.Rule]++
+		if perRule[v.Rule] == 13 {
+			fmt.Printf("… further %s reports are in the report file\n", v.Rule)
+		}
+		if perRule[v.Rule] >= 13 {
+			continue
+		}
+		fmt.Printf("%s: rule %s %s: %s  [key: %s]\n", v.Pos, v.Rule, v.Status, v.Msg, v.Key)
 	}
 	evDir := filepath.Join(verifDir, "evidence")
 	os.MkdirAll(evDir, 0o755)
